@@ -66,4 +66,25 @@ def nilSafe : Bool → Policy → Bool
   | w, .cookie _ fb => w && nilSafe w fb
   | _, _ => true
 
+/-- what `passes` / `fails` are documented to mean: the number of *consecutive* passes before an
+    unhealthy backend is healthy again, of *consecutive* failures before a healthy one is unhealthy.
+    `run` = length of the current run of equal results -/
+structure AhSpec where
+  healthy : Bool
+  lastOk : Bool
+  run : Nat
+deriving DecidableEq, Repr
+
+def ahSpecStep (p f : Nat) (s : AhSpec) (ok : Bool) : AhSpec :=
+  if ok then
+    if p ≤ (if s.lastOk then s.run else 0) + 1 then ⟨true, true, (if s.lastOk then s.run else 0) + 1⟩
+    else ⟨s.healthy, true, (if s.lastOk then s.run else 0) + 1⟩
+  else
+    if f ≤ (if s.lastOk then 0 else s.run) + 1 then ⟨false, false, (if s.lastOk then 0 else s.run) + 1⟩
+    else ⟨s.healthy, false, (if s.lastOk then 0 else s.run) + 1⟩
+
+def ahSpecRun (p f : Nat) : AhSpec → List Bool → List Bool
+  | _, [] => []
+  | s, r :: rs => (ahSpecStep p f s r).healthy :: ahSpecRun p f (ahSpecStep p f s r) rs
+
 end CaddyModel.C08
